@@ -212,6 +212,26 @@ func scenarios() map[string]scenario {
 			return w
 		}})
 	}
+	// S3b: three expired registrations on the sweeper's list while a connection activates one of them between the
+	// sweeper's collection and removal passes: every other expired, unused registration must still be removed. The
+	// sweep list follows the iteration order of the timeout map, which the C09 build makes sorted-by-key (vinstr
+	// -maprange) so that it is owned and replayable; one scenario per activated registration, so that the activated
+	// one is first, middle and last on the list in turn.
+	for _, act := range []int{1, 2, 3} {
+		act := act
+		add(scenario{fmt.Sprintf("S3b:sweeper+connection@three-expired,activate=%d", act), func() *world {
+			w := newWorld()
+			for _, sec := range []int{1, 2, 3} {
+				for _, r := range mustParse(w.rm, msg(sec, "93.184.216.34:443")) {
+					w.rm.VerifIngest(r)
+				}
+			}
+			w.anns = w.anns[:0]
+			vsched.Advance(10*time.Minute + time.Second)
+			w.bodies = []body{{name: "sweeper", f: func() { w.rm.RemoveOldRegistrations() }}, w.conn("conn", act, 1)}
+			return w
+		}})
+	}
 	add(scenario{"S4:worker+reload+lookup", func() *world {
 		w := newWorld()
 		nc := &lib.RegConfig{EnableIPv4: true, EnableIPv6: true, CovertBlocklistSubnets: []string{"93.184.0.0/16"}}
